@@ -118,7 +118,7 @@ Definition cls (st : tcp_state) : Z :=
 (* which state changes the table can make (besides the two SYN rows) *)
 Definition st_rel (st : tcp_state) (c : control) (aof : bool) (st' : tcp_state) : Prop :=
   match c with
-  | CRst => st' = Closed \/ (st = SynReceived /\ st' = Listen)
+  | CRst => st' = Closed
   | _ => (aof = true /\ cls st = 2 /\ (cls st' = 3 \/ st' = Closed)) \/
          (cls st' = cls st /\ 1 <= cls st <= 3 /\ (st' = FinWait1 -> st = FinWait1) /\
           (aof = true -> cls st <> 2)) \/
@@ -145,7 +145,8 @@ Lemma transition_spec : forall cx s ip r c al aof p,
    s_remote_win_scale s' = r_window_scale r /\ timer_is_idle (s_timer s') = true /\
    s_remote_mss s' = s_remote_mss (tcp_apply_mss s r) /\
    s_remote_win_shift s' = (if is_some (r_window_scale r) then s_remote_win_shift s else 0) /\
-   s_syn_unacked_in_fin_wait s' = s_syn_unacked_in_fin_wait s) \/
+   s_syn_unacked_in_fin_wait s' = s_syn_unacked_in_fin_wait s /\
+   rt_max_seq_sent (s_rtte s') = rt_max_seq_sent (s_rtte s)) \/
   (s_state s = SynSent /\ c = CSyn /\ is_ret p = false /\
    s_state s' = (if is_some (r_ack_number r) then Established else SynReceived) /\
    s_local_seq_no s' = s_local_seq_no s /\
@@ -155,7 +156,8 @@ Lemma transition_spec : forall cx s ip r c al aof p,
    s_remote_win_scale s' = r_window_scale r /\ s_timer s' = s_timer s /\
    s_remote_mss s' = s_remote_mss (tcp_apply_mss s r) /\
    s_remote_win_shift s' = (if is_some (r_window_scale r) then s_remote_win_shift s else 0) /\
-   s_syn_unacked_in_fin_wait s' = s_syn_unacked_in_fin_wait s) \/
+   s_syn_unacked_in_fin_wait s' = s_syn_unacked_in_fin_wait s /\
+   rt_max_seq_sent (s_rtte s') = rt_max_seq_sent (s_rtte s)) \/
   (* a handshake reset returns a listening socket to a pristine LISTEN *)
   (s_state s = SynReceived /\ c = CRst /\ is_ret p = true /\
    s' = tcp_set_state (upd_listen_endpoint (tcp_reset s) (s_listen_endpoint s)) Listen).
@@ -167,11 +169,12 @@ Proof.
                s_local_seq_no (tcp_apply_mss s r) = s_local_seq_no s /\
                s_remote_last_seq (tcp_apply_mss s r) = s_remote_last_seq s /\
                s_syn_unacked_in_fin_wait (tcp_apply_mss s r) = s_syn_unacked_in_fin_wait s /\
-               s_timer (tcp_apply_mss s r) = s_timer s)
+               s_timer (tcp_apply_mss s r) = s_timer s /\
+               s_rtte (tcp_apply_mss s r) = s_rtte s)
     by (unfold tcp_apply_mss; destruct (r_max_seg_size r) as [m|]; [destruct (m =? 0)|]; fld;
         repeat split; reflexivity).
-  destruct Hm as (M1 & M2 & M3 & M4 & M5 & M6 & M7).
-  revert M1 M2 M3 M4 M5 M6 M7 H. generalize (tcp_apply_mss s r). intros sm M1 M2 M3 M4 M5 M6 M7 H.
+  destruct Hm as (M1 & M2 & M3 & M4 & M5 & M6 & M7 & M8).
+  revert M1 M2 M3 M4 M5 M6 M7 M8 H. generalize (tcp_apply_mss s r). intros sm M1 M2 M3 M4 M5 M6 M7 M8 H.
   destruct (s_state s) eqn:Est, c; try congruence;
   repeat match type of H with
   | context [if ?b then _ else _] => destruct b eqn:?
@@ -188,7 +191,7 @@ Proof.
   try (do 4 right; repeat split; reflexivity).
   all: repeat match goal with H : is_some (s_remote_win_scale _) = _ |- _ => fld_in H; fld; rewrite H
                             | H : is_some (r_ack_number _) = _ |- _ => fld_in H; fld; rewrite ?H end;
-       fld; rewrite ?M1, ?M2, ?M3, ?M4, ?M5, ?M6, ?M7;
+       fld; rewrite ?M1, ?M2, ?M3, ?M4, ?M5, ?M6, ?M7, ?M8;
        right; right; first [left; repeat split; reflexivity | right; left; repeat split; reflexivity].
 Qed.
 
@@ -218,6 +221,27 @@ Proof.
   - injection H as <- <-. exists (s_tx_buffer s). split; [reflexivity|]. split; [lia|auto].
 Qed.
 
+Lemma rtte_sample_msx : forall r n r', rtte_sample r n = Ok r' ->
+  rt_max_seq_sent r' = rt_max_seq_sent r.
+Proof.
+  intros r n r' H. unfold rtte_sample in H.
+  repeat match type of H with
+  | context [obind ?x _] => destruct x; cbn [obind] in H; try discriminate
+  | context [if ?b then _ else _] => destruct b
+  | context [let '(_, _) := ?x in _] => destruct x
+  end; try discriminate; injection H as <-; reflexivity.
+Qed.
+
+Lemma rtte_on_ack_msx : forall r t q r', rtte_on_ack r t q = Ok r' ->
+  rt_max_seq_sent r' = rt_max_seq_sent r.
+Proof.
+  intros r t q r' H. unfold rtte_on_ack in H.
+  destruct (rt_timestamp r) as [[st sq0]|]; [|injection H as <-; reflexivity].
+  destruct (seq_ge q sq0); [|injection H as <-; reflexivity].
+  destruct (rtte_sample r _) eqn:E; cbn [obind] in H; try discriminate.
+  injection H as <-. cbn [rt_max_seq_sent]. eapply rtte_sample_msx. exact E.
+Qed.
+
 Lemma dup_ack_spec : forall cx s r al wu s' tg,
   tcp_process_dup_ack cx s r al wu = Ok (s', tg) ->
   match r_ack_number r with
@@ -241,13 +265,14 @@ Proof.
       apply negb_true_iff in Eb. exact Eb.
     + left. reflexivity.
   - destruct (s_local_rx_dup_acks s >? 0); fld_in H;
-    (destruct (rtte_on_ack (s_rtte s) (cx_now cx) a); cbn [obind] in H; try discriminate;
+    (destruct (rtte_on_ack (s_rtte s) (cx_now cx) a) eqn:Er; cbn [obind] in H; try discriminate;
      match type of H with context [tcp_flight_size ?x] => destruct (tcp_flight_size x) end;
      cbn [obind] in H; try discriminate;
      match type of H with context [cc_on_ack ?x ?y] => destruct (cc_on_ack x y) end;
      cbn [obind] in H; try discriminate;
      fld_in H; injection H as <- <-; exists (s_timer s); split; [|left; reflexivity];
-     destruct (seq_lt (s_remote_last_seq s) a); fld; reflexivity).
+     destruct (seq_lt (s_remote_last_seq s) a); unfold txv; fld;
+     rewrite (rtte_on_ack_msx _ _ _ _ Er); reflexivity).
 Qed.
 
 Lemma timers_zwp_spec : forall cx s al aa s6 t6 s7 t7,
@@ -270,6 +295,7 @@ Proof.
   destruct A as (A1 & A2 & A3).
   destruct (txv_proj _ _ A1) as (B1 & B2 & B3 & B4 & B5 & B6 & _ & B8 & B9 & B10).
   fld_in B1. fld_in B2. fld_in B3. fld_in B4. fld_in B5. fld_in B6. fld_in B8. fld_in B9. fld_in B10.
+  pose proof (txv_msx _ _ A1) as B11. fld_in B11.
   unfold tcp_process_zwp in H7.
   destruct ((s_remote_win_len s6 =? 0) && negb (rb_is_empty (s_tx_buffer s6)) &&
             (timer_is_idle (s_timer s6) || (al >? 0))) eqn:Ez; rewrite B2, B5 in Ez;
@@ -278,20 +304,20 @@ Proof.
     destruct Ez as [Ez Ene]. rewrite Ez in H7. apply negb_true_iff in Ene. rewrite Ene in H7.
     cbn [negb andb orb timer_set_for_zero_window_probe timer_is_zero_window_probe] in H7.
     injection H7 as <- <-.
-    unfold txv. fld. rewrite B1, B2, B3, B4, B5, B6, B8, B9, B10. split; [reflexivity|]. split.
+    unfold txv. fld. rewrite B1, B2, B3, B4, B5, B6, B8, B9, B10, B11. split; [reflexivity|]. split.
     + intros _. apply Z.eqb_eq. exact Ez.
     + unfold timer_set_for_zero_window_probe. cbn. discriminate.
   - destruct (negb (s_remote_win_len s =? 0) || rb_is_empty (s_tx_buffer s)) eqn:Ew; cbn [andb] in H7.
     + destruct (timer_is_zero_window_probe (s_timer s6)) eqn:Ezw.
       * destruct (negb (s_remote_last_seq s =? s_local_seq_no s)) eqn:Er;
-        injection H7 as <- <-; unfold txv; fld; rewrite B1, B2, B3, B4, B5, B6, B8, B9, B10;
+        injection H7 as <- <-; unfold txv; fld; rewrite B1, B2, B3, B4, B5, B6, B8, B9, B10, B11;
         (split; [reflexivity|]).
         -- unfold timer_set_for_retransmit, timer_set_for_idle. cbn. split; discriminate.
         -- unfold timer_set_for_idle. cbn. split; [discriminate|]. intros _. right. right.
            apply negb_false_iff in Er. exact Er.
-      * injection H7 as <- <-. unfold txv. rewrite B1, B2, B3, B4, B5, B6, B8, B9, B10. fld.
+      * injection H7 as <- <-. unfold txv. rewrite B1, B2, B3, B4, B5, B6, B8, B9, B10, B11. fld.
         split; [reflexivity|]. split; [congruence|]. intros Hi. specialize (A3 Hi). tauto.
-    + injection H7 as <- <-. unfold txv. rewrite B1, B2, B3, B4, B5, B6, B8, B9, B10. fld.
+    + injection H7 as <- <-. unfold txv. rewrite B1, B2, B3, B4, B5, B6, B8, B9, B10, B11. fld.
       split; [reflexivity|]. split.
       * intros _. apply orb_false_iff in Ew. destruct Ew as [Ew _].
         apply negb_false_iff, Z.eqb_eq in Ew. exact Ew.
@@ -353,7 +379,8 @@ Lemma tail_spec : forall cx s3 ip r al aa pl po t1 t2 t3 s8 reply tags,
     (timer_is_zero_window_probe (s_timer s8) = true -> learned_window s3 r = 0) /\
     (timer_is_idle (s_timer s8) = true ->
        aa = true \/ timer_is_idle (s_timer s3) = true \/
-       (s_remote_last_seq s8 =? s_local_seq_no s8) = true).
+       (s_remote_last_seq s8 =? s_local_seq_no s8) = true) /\
+    rt_max_seq_sent (s_rtte s8) = rt_max_seq_sent (s_rtte s3).
 Proof.
   intros cx s3 ip r al aa pl po t1 t2 t3 s8 reply tags H.
   destruct (tcp_process_update_remote cx s3 r al) as [[s4 wu]| |] eqn:E4; cbn [obind] in H; try discriminate.
@@ -379,6 +406,10 @@ Proof.
   destruct (txv_proj _ _ V4) as (U1 & U2 & U3 & U4 & U5 & U6 & U7 & U8 & U9 & U10).
   fld_in U1. fld_in U2. fld_in U3. fld_in U4. fld_in U5. fld_in U6. fld_in U7. fld_in U8. fld_in U9.
   fld_in U10.
+  assert (Hmx : forall s5msx, rt_max_seq_sent (s_rtte s5) = s5msx ->
+                rt_max_seq_sent (s_rtte s8') = s5msx).
+  { intros x Hx. rewrite (txv_msx _ _ E8), (txv_msx _ _ V7). fld. rewrite (txv_msx _ _ T5). exact Hx. }
+  pose proof (txv_msx _ _ V4) as M4. fld_in M4.
   exists tx'. split; [exact D1|]. split; [exact D2|].
   destruct (r_ack_number r) as [a|].
   - destruct E5 as (tm & V5 & Htm).
@@ -391,21 +422,23 @@ Proof.
     rewrite W1, W2, W3, W4, W5, W6, W8, W9, W10.
     rewrite U1, U2, U4, U5, U6, U8, U9.
     repeat (split; [reflexivity|]). split; [repeat split; reflexivity|].
-    split.
+    split; [|split].
     + intros Hz. specialize (Z7 Hz). congruence.
     + intros Hi. specialize (I7 Hi). rewrite R7, W7, R4, R3, W4, W3, U4 in I7.
       destruct I7 as [(_ & I)|[I|I]]; [left; exact I| |right; right; exact I].
       destruct Htm as [->|(-> & _)]; [|discriminate I]. rewrite U7 in I. right. left. exact I.
+    + apply Hmx. pose proof (txv_msx _ _ V5) as M5. fld_in M5. congruence.
   - subst s5.
     rewrite P1, P2, P3, P4, P5, P6, P7, P8, P9, P10.
     rewrite Q1, Q2, Q3, Q4, Q5, Q6, Q8, Q9, Q10.
     rewrite R1, R2, R3, R4, R5, R6, R8, R9, R10.
     rewrite U1, U2, U3, U4, U5, U6, U8, U9, U10.
     repeat (split; [reflexivity|]). split; [repeat split; reflexivity|].
-    split.
+    split; [|split].
     + intros Hz. specialize (Z7 Hz). congruence.
     + intros Hi. specialize (I7 Hi). rewrite R7, R4, R3, U7, U4, U3 in I7.
       destruct I7 as [(_ & I)|[I|I]]; [left; exact I|right; left; exact I|right; right; exact I].
+    + apply Hmx. exact M4.
 Qed.
 
 (* ------------------------------------------------------------------------------------------ *)
@@ -588,13 +621,16 @@ Lemma inv_timer_swap : forall g s s' tm,
   inv g s -> txv s' = txv (upd_timer s tm) -> (tm = s_timer s \/ exists e, tm = TClose e) ->
   inv g s'.
 Proof.
-  intros g s s' tm (Htx & Htm) E Ht.
+  intros g s s' tm (Htx & Htm & Hk) E Ht.
   destruct (txv_proj _ _ E) as (B1 & B2 & B3 & B4 & B5 & B6 & B7 & B8 & B9 & B10).
-  fld_in B1. fld_in B2. fld_in B3. fld_in B4. fld_in B5. fld_in B6. fld_in B7. fld_in B10.
-  split.
+  pose proof (txv_msx _ _ E) as B11.
+  fld_in B1. fld_in B2. fld_in B3. fld_in B4. fld_in B5. fld_in B6. fld_in B7. fld_in B8. fld_in B10.
+  fld_in B11.
+  split; [|split].
   - unfold tx_inv in *. rewrite B1, B2, B3, B4, B5, B6, B10. exact Htx.
   - unfold tm_inv in *. rewrite B2, B5, B7. destruct Ht as [->|(e & ->)]; [exact Htm|].
     split; discriminate.
+  - eapply kinv_fields; [exact Hk|exact B11|exact B8|congruence].
 Qed.
 
 Lemma phase_ok_closed : forall g st len fw fw', phase_ok g st len fw -> phase_ok g Closed len fw'.
@@ -608,20 +644,22 @@ Qed.
 Lemma inv_state_rst : forall g s s' st' tm,
   inv g s -> txv s' = txv (upd_timer (upd_state s st') tm) ->
   (tm = s_timer s \/ exists e, tm = TClose e) ->
-  (st' = Closed \/ (s_state s = SynReceived /\ st' = Listen)) ->
+  st' = Closed ->
   inv g s'.
 Proof.
-  intros g s s' st' tm (Htx & Htm) E Ht Hst.
+  intros g s s' st' tm (Htx & Htm & Hk) E Ht Hst.
   destruct (txv_proj _ _ E) as (B1 & B2 & B3 & B4 & B5 & B6 & B7 & B8 & B9 & B10).
-  fld_in B1. fld_in B2. fld_in B3. fld_in B4. fld_in B5. fld_in B6. fld_in B7. fld_in B10.
-  split.
+  pose proof (txv_msx _ _ E) as B11.
+  fld_in B1. fld_in B2. fld_in B3. fld_in B4. fld_in B5. fld_in B6. fld_in B7. fld_in B8. fld_in B10.
+  fld_in B11.
+  split; [|split].
   - unfold tx_inv in *. rewrite B1, B2, B3, B4, B5, B6, B10.
     destruct Htx as (H1 & H2 & H3 & H4 & H5 & H6 & H7 & H8 & H9 & H10 & H11).
     repeat (split; [assumption|]). split; [|assumption].
-    destruct Hst as [->|(Es & ->)]; [eapply phase_ok_closed; eassumption|].
-    rewrite Es in H10. unfold phase_ok in *. destruct (g_phase g); tauto.
+    subst st'. eapply phase_ok_closed; eassumption.
   - unfold tm_inv in *. rewrite B2, B5, B7. destruct Ht as [->|(e & ->)]; [exact Htm|].
     split; discriminate.
+  - eapply kinv_fields; [exact Hk|exact B11|exact B8|]. rewrite B1, Hst. discriminate.
 Qed.
 
 (* the state relation a continuing transition can establish *)
@@ -704,9 +742,10 @@ Lemma fresh_inv : forall s isn,
   match s_remote_win_scale s with Some v => 0 <= v <= 14 | None => True end ->
   match s_state s with Closed | Listen | SynSent | SynReceived => True | _ => False end ->
   (timer_is_zero_window_probe (s_timer s) = true -> s_remote_win_len s = 0) ->
+  rt_max_seq_sent (s_rtte s) = None -> s_remote_mss s = tcp_DEFAULT_MSS ->
   inv (g_fresh isn) s.
 Proof.
-  intros s isn Hwf Hcap Hlen Hisn Hl Hr Hw Hs Hst Hz. split.
+  intros s isn Hwf Hcap Hlen Hisn Hl Hr Hw Hs Hst Hz Hmx Hms. split; [|split].
   - unfold tx_inv, tx_inv_f, g_fresh, g_una, g_budget, phase_ok, g_W.
     cbn [g_iss g_stream g_acked g_phase g_flight g_fin g_hw]. rewrite Hlen, Hl, Hr.
     split; [exact Hwf|]. split; [exact Hcap|]. split; [lia|]. split; [reflexivity|].
@@ -715,6 +754,8 @@ Proof.
     split; [lia|]. split; [lia|].
     split; [destruct (s_state s); tauto|]. split; [exact Hw|exact Hs].
   - unfold tm_inv, tm_inv_f, g_fresh. cbn [g_flight]. split; [exact Hz|auto].
+  - unfold kinv, g_fresh. cbn [g_hw g_stream g_fin g_iss b2z]. rewrite Hmx, Hms, l_len_nil.
+    split; [lia|]. split; [exact I|]. split; [unfold tcp_MIN_REMOTE_MSS, tcp_DEFAULT_MSS; lia|auto].
 Qed.
 
 Lemma new_epoch_fresh : forall g isn, ghost_rel g (g_fresh isn).
@@ -726,4 +767,8 @@ Lemma reset_fields : forall s,
   s_remote_win_len (tcp_reset s) = 0 /\ s_remote_win_scale (tcp_reset s) = None /\
   s_timer (tcp_reset s) = TIdle None /\ s_state (tcp_reset s) = Closed.
 Proof. intros. unfold tcp_reset, timer_new. fld. repeat split; reflexivity. Qed.
+
+Lemma reset_fields2 : forall s,
+  rt_max_seq_sent (s_rtte (tcp_reset s)) = None /\ s_remote_mss (tcp_reset s) = tcp_DEFAULT_MSS.
+Proof. intros. unfold tcp_reset, rtte_default. fld. split; reflexivity. Qed.
 
